@@ -2,9 +2,13 @@
 
 Theorems: Props/C13.v (locality of the cost SPEC, of the sad/ssd/census/zncc MODEL, of the criteria flags, of the
         cbca SPEC and MODEL (through C11's model = spec), of winner-takes-all, refinement, median and bilateral
-        filters, cross-checking, of every pipeline of these steps: C13_pipeline_local; crop invariance).  The
-        per-step models are tied to the code by the correspondences of C02/C03/C04/C06/C07/C10/C11; nothing new is
-        hand-modelled here except the glue Model/Local.v.
+        filters, cross-checking, of every pipeline of these steps: C13_pipeline_local; crop invariance; vertical
+        flip of every pipeline of these steps at every pixel: C13_pipeline_vflip, under the side conditions
+        C13_vflip_side_conditions).  The per-step models are tied to the code by the correspondences of
+        C02/C03/C04/C06/C07/C10/C11; nothing new is hand-modelled here except the glue Model/Local.v.
+T-gen:  the flag sites of criteria.py are regenerated (gen_flags) so that C13_border_flags_symmetric (the two row
+        statements of mask_border have the same effect: needed by the flip of the matching-cost validity mask) is
+        re-proved on the tree under test.
 T-corr: the cone / margin of each pipeline is computed by the EXTRACTED [kpipe_rad] (the radii of the
         theorem, C13_radii_agree; cbca: arms of max(cbca_distance - 1, 1) pixels, + 1 for the 3x3 median
         pre-filter or the window offset) and decides which pixels of a crop are compared.
@@ -21,7 +25,7 @@ import numpy as np
 from harness import core
 from harness import pandora_util as pu
 
-GEN = []
+GEN = ["gen_flags"]
 EXTRACT_FILES = ["X13"]
 DRIVERS = ["x13"]
 RULE = ("a case = one scene (24-40 x 40-64 pair, integer radiometry inside the exact domain of the measure, right image = "
@@ -39,13 +43,17 @@ ASSUMES = [
     "the per-step models are those of C02/C03/C04/C06/C07/C10/C11 (their correspondences tie them to the code); the "
     "theorem for pipelines (C13_pipeline_local) covers sad/ssd/census/zncc + validity mask, cbca, wta, vfit/quadratic, "
     "median, bilateral, cross-checking; zncc: the model holds the exact integer triple (cov, varL, varR), the float "
-    "evaluation of cov/sqrt(varL varR) is any function of it; the vertical flip is covered by these metamorphic "
-    "runs only",
+    "evaluation of cov/sqrt(varL varR) is any function of it; the vertical flip is proved for the same pipelines "
+    "(C13_pipeline_vflip: every pixel, margins included; flags and cost curves equal, disparities equal as rational "
+    "numbers) under C13_vflip_side_conditions: odd matching-cost window, odd median filter_size, odd EFFECTIVE "
+    "bilateral window min(rows, cols, int(3*sigma_space+1)) with a row-symmetric spatial kernel, census window 3/5, "
+    "cbca_distance >= 1, symmetric border flag statements (re-proved on the regenerated sites)",
     "side condition of cross-checking locality (px_ok): a still-valid pixel holds a disparity that rounds into its "
     "interval; checked on the final maps of every run",
     "exact domain (DESIGN 2.1 a): radiometry bounded so that every window sum of the measure is exact in float32; "
-    "flips are compared only there and for odd windows (the bilateral window int(3*sigma_space+1) may be even: then "
-    "the flip is not compared, as the property says); zncc and cbca-on-real-costs are compared on crops (same "
+    "flips are compared only there and for odd windows (the EFFECTIVE bilateral window min(rows, cols, "
+    "int(3*sigma_space+1)) may be even: then the flip is not compared, as the property says and as "
+    "C13_vflip_even_window_refuted shows on the model); zncc and cbca-on-real-costs are compared on crops (same "
     "operations in the same order) but not on flips (summation order changes); after an odd-window bilateral filter "
     "(float weighted mean) flipped disparities are compared within 2^-12 and flags are not compared",
     "cbca integral images are running sums from the image side (float64 since the `fix:` commit of this property): "
@@ -292,7 +300,12 @@ def check_case(ctx, model, case):
                     "interior_pixels": npx, "distinct_disparities": nd, "flagged": flagged})
     # ---- vertical flip
     if case.get("flip"):
-        flip_ok = info["odd_windows"] and info["measure"] != "zncc" and not (info["cbca"] and not exact_cbca)
+        # side condition of C13_bilateral_step_vflip: the EFFECTIVE window min(rows, cols, int(3 sigma_space + 1)) is odd
+        # (bilateral.py clips the window to the image), and every median filter_size is odd
+        eff_odd = all(min(rows, cols, int(3 * c["sigma_space"] + 1)) % 2 == 1 for _, c in pipeline
+                      if c.get("filter_method") == "bilateral") and \
+            all(int(c["filter_size"]) % 2 == 1 for _, c in pipeline if c.get("filter_method") == "median")
+        flip_ok = info["odd_windows"] and eff_odd and info["measure"] != "zncc" and not (info["cbca"] and not exact_cbca)
         if not flip_ok:
             ctx.count("flip_not_compared_even_window_or_real_valued")
             return
